@@ -4,19 +4,23 @@
 ``zope.__path__`` to /repo/src/zope, which hides zope.interface / zope.exceptions.
 We extend the namespace path at run time; nothing in /repo or /venv is changed.
 """
+import os
 import sys
 
 SITE_ZOPE = '/venv/lib/python3.12/site-packages/zope'
-BOOT = ("import zope; zope.__path__.append(%r); " % SITE_ZOPE)
+# VERIF_REPO_ROOT: run the oracles against a scratch copy of the repository (seeded-mutant runs); default /repo
+REPO_ROOT = os.environ.get('VERIF_REPO_ROOT', '/repo')
+REPO_ZOPE = os.path.join(REPO_ROOT, 'src', 'zope')
+BOOT = ("import zope; zope.__path__[:] = [%r, %r]; " % (REPO_ZOPE, SITE_ZOPE))
 # script_parts for child processes spawned by the runner (resume_tests / -j N)
 CHILD_SCRIPT_PARTS = ['-c', BOOT + "from zope.testrunner import run; run()"]
 
 
 def boot():
     import zope
-    if SITE_ZOPE not in list(zope.__path__):
-        zope.__path__.append(SITE_ZOPE)
+    zope.__path__[:] = [REPO_ZOPE, SITE_ZOPE]
     import zope.testrunner.runner  # noqa: F401  (fails loudly if the namespace is still broken)
+    assert zope.testrunner.runner.__file__.startswith(REPO_ROOT + os.sep), zope.testrunner.runner.__file__
     return zope.testrunner.runner
 
 
